@@ -623,6 +623,69 @@ func (v *VerifCtl) WeightProbePending() VWeightProbe {
 	return out
 }
 
+// WeightProbeInvalid: a served VirtualServer with an n-way split (n = 2 or 3) is edited so that only the weights change and
+// no longer add up to 100, with -weight-changes-dynamic-reload on.  The update goes to the real informer update handler and
+// whatever it queues is processed by the real sync: the validation error must be reported (Events returned), and the rejected
+// object must not be served again when the next unrelated event rebuilds the arbitration (Stored = it holds its host then).
+func (v *VerifCtl) WeightProbeInvalid(n int) VWeightProbe {
+	mkvs := func(ws []int, gen int64) *conf_v1.VirtualServer {
+		x := verifSplitVS("nginx", 50, 50, gen)
+		x.Name, x.UID, x.Spec.Host = fmt.Sprintf("inv%d", n), types.UID(fmt.Sprintf("uid-wp-inv%d", n)), fmt.Sprintf("wpi%d.example.com", n)
+		x.Spec.Upstreams = append(x.Spec.Upstreams, conf_v1.Upstream{Name: "u3", Service: "s3", Port: 80})
+		var sp []conf_v1.Split
+		for i, w := range ws {
+			sp = append(sp, conf_v1.Split{Weight: w, Action: &conf_v1.Action{Pass: fmt.Sprintf("u%d", i+1)}})
+		}
+		x.Spec.Routes[0].Splits = sp
+		return x
+	}
+	good, bad := []int{50, 50}, []int{70, 50}
+	if n == 3 {
+		good, bad = []int{50, 30, 20}, []int{50, 30, 30}
+	}
+	old, cur := mkvs(good, 1), mkvs(bad, 2)
+	key := "wp/" + old.Name
+	nsi := v.nsi("wp")
+	sync := func() {
+		q := v.lbc.syncQueue.queue
+		for q.Len() > 0 {
+			it, _ := q.Get()
+			q.Done(it)
+			v.lbc.sync(it.(task))
+		}
+	}
+	v.drainQueue()
+	v.lbc.weightChangesDynamicReload = true
+	_ = nsi.virtualServerLister.Add(old)
+	createVirtualServerHandlers(v.lbc).AddFunc(old)
+	sync()
+	v.rec.take()
+	v.kube.ClearActions()
+	v.conf.ClearActions()
+	_ = nsi.virtualServerLister.Add(cur)
+	createVirtualServerHandlers(v.lbc).UpdateFunc(old, cur)
+	sync()
+	evs := v.rec.take()
+	// an unrelated resource arrives: the arbitration is rebuilt; the rejected VirtualServer must not come back
+	other := verifSplitVS("nginx", 50, 50, 1)
+	other.Name, other.UID, other.Spec.Host = fmt.Sprintf("other%d", n), types.UID(fmt.Sprintf("uid-wp-other%d", n)), fmt.Sprintf("wpo%d.example.com", n)
+	_ = nsi.virtualServerLister.Add(other)
+	createVirtualServerHandlers(v.lbc).AddFunc(other)
+	sync()
+	c := v.lbc.configuration
+	c.lock.RLock()
+	_, holds := c.hosts[cur.Spec.Host]
+	c.lock.RUnlock()
+	out := VWeightProbe{Stored: holds, Events: evs, Writes: v.statusWrites()}
+	v.lbc.weightChangesDynamicReload = false
+	_ = nsi.virtualServerLister.Delete(cur)
+	v.lbc.sync(task{Kind: virtualserver, Key: key})
+	_ = nsi.virtualServerLister.Delete(other)
+	v.lbc.sync(task{Kind: virtualserver, Key: "wp/" + other.Name})
+	v.rec.take()
+	return out
+}
+
 // writeBack plays the watch for the status writes of a sync: the informer store gets a NEW object that carries
 // the written status (the real informer replaces the cached object; whoever kept the old pointer keeps the old
 // status).  The resulting update event changes nothing but the status and is not delivered to the handlers.
@@ -690,7 +753,7 @@ func (v *VerifCtl) PolicyProbe(step int, shape int) error {
 			ObjectMeta: meta_v1.ObjectMeta{Namespace: "pp", Name: "cafe", UID: "uid-pp-cafe", Generation: 1},
 			Spec: conf_v1.VirtualServerSpec{IngressClass: "nginx", Host: "pp.example.com",
 				Upstreams: []conf_v1.Upstream{{Name: "u1", Service: "s1", Port: 80}},
-				Routes: []conf_v1.Route{{Path: "/", Action: &conf_v1.Action{Pass: "u1"}}, {Path: "/r2", Action: &conf_v1.Action{Pass: "u1"}}}},
+				Routes:    []conf_v1.Route{{Path: "/", Action: &conf_v1.Action{Pass: "u1"}}, {Path: "/r2", Action: &conf_v1.Action{Pass: "u1"}}}},
 		}
 		switch shape % 4 {
 		case 0:
